@@ -337,3 +337,11 @@ def rsplit_once(s):
     if len(parts) == 2:
         return len(parts[0]) * 100 + len(parts[1])
     return -1 - len(parts[0])
+
+def get_default_in_or(d_has_raw, raw, n):
+    d = {}
+    if d_has_raw:
+        d["raw"] = raw
+    if d.get("raw", 0) or n < 0:
+        return 1
+    return 2
